@@ -255,12 +255,12 @@ REQUIRED_THEOREMS = [
     "Cv.C03.poisson_mult_terminates_fuel", "Cv.C03.binomial_inversion_spec", "Cv.C03.binomial_inversion_le",
     "Cv.C03.binomial_inversion_terminates",
     # support
-    "Cv.C03.pareto_support", "Cv.C03.exponential_support", "Cv.C03.uniform_support", "Cv.C03.bernoulli_support",
-    "Cv.C03.discrete_uniform_support",
+    "Cv.C03.pareto_support_partial", "Cv.C03.exponential_support_partial", "Cv.C03.uniform_support", "Cv.C03.bernoulli_support",
+    "Cv.C03.discrete_uniform_support_partial",
     # partial correctness of the rejection samplers (every RETURNING call; termination not proved): `_partial`
     "Cv.C03.gamma_support_ge_one_partial", "Cv.C03.gamma_support_lt_one_partial", "Cv.C03.gamma_support_pos_partial",
     "Cv.C03.gamma_support_nonneg_partial", "Cv.C03.chi_squared_support_partial", "Cv.C03.beta_sample_support_partial",
-    "Cv.C03.gamma_boost", "Cv.C03.beta_underflow_branch", "Cv.C03.mvn_sample_spec", "Cv.C03Mvn.mvn_new_spec",
+    "Cv.C03.gamma_boost", "Cv.C03.beta_underflow_branch", "Cv.C03.mvn_sample_spec_partial", "Cv.C03Mvn.mvn_new_spec",
     # bulk
     "Cv.C03.sampleN_length", "Cv.C03.sampleN_consecutive", "Cv.C03.sampleMatrix_shape", "Cv.C03.sampleMatrix_total",
     "Cv.C03.mvn_sampleN_shape",
@@ -292,7 +292,7 @@ NOT_PROVED = [
     "the LAWS of the rejection samplers: Ziggurat normal, Marsaglia–Tsang gamma (and so beta, chi-squared, t), PTRS Poisson, "
     "BTPE binomial — measure theory over acceptance regions; decided only by the bit-exact tie + DKW search.  In particular "
     "that MVN draws have covariance Sigma in distribution is not proved: proved is x = mu + L z with L L^T = Sigma "
-    "(mvn_sample_spec + mvn_new_spec), z the dim Ziggurat draws",
+    "(mvn_sample_spec_partial + mvn_new_spec), z the dim Ziggurat draws",
     "TERMINATION of the rejection loops (Ziggurat, Marsaglia–Tsang, PTRS, BTPE, Lemire) for every generator state: every "
     "theorem about them is partial correctness (`_partial`: about every call that returns) plus a concrete returning state "
     "(Props/C03Witness); proved termination: Poisson multiplication method and binomial inversion for every state, the "
@@ -329,7 +329,9 @@ ASSUMPTIONS = [
 ALPHA = 1e-12
 I64MAX = 2 ** 63 - 1
 WY_INC = 0xa0761d6478bd642f
-# alea::set_seed(s): the k-th raw word is wyMix(s + k * WY_INC); it is 0 (so f64() = 0.0) exactly when s + k * WY_INC = 0 mod 2^64
+# alea::set_seed(s): the k-th raw word is wyMix(s + k * WY_INC), and wyMix(0) = 0: when s + k * WY_INC = 0 mod 2^64 the word is 0 and
+# f64() = 0.0.  These four seeds are the closed-form ones; f64() is 0.0 for every word whose top 53 bits vanish (about 2^11 of the
+# 2^64 states), which are not enumerated here
 ZERO_SEEDS = [(0x5F89E29B87429BD1 - k * WY_INC) % 2 ** 64 for k in range(4)]
 
 
@@ -510,6 +512,7 @@ def os_ranks(n, k):
 
 
 CDF_SLACK = 1e-9   # numerical error allowance of the reference CDFs
+LAST_SIDE = None
 
 
 def dkw_lower_bound(dist, ps, n, kind, payload):
@@ -545,8 +548,11 @@ def dkw_lower_bound(dist, ps, n, kind, payload):
         a = r / n - hi
         b = lo_left - (r - 1.0) / n
     ia, ib = int(np.argmax(a)), int(np.argmax(b))
+    global LAST_SIDE      # "mass-at-or-below" (F_n above F at x) or "mass-at-or-above" (F_n below F just left of x)
     if a[ia] >= b[ib]:
+        LAST_SIDE = "mass-at-or-below"
         return float(a[ia]), float(vals[ia])
+    LAST_SIDE = "mass-at-or-above"
     return float(b[ib]), float(vals[ib])
 
 
@@ -1288,8 +1294,11 @@ def oracle(lines, impl):
             L, where = dkw_lower_bound(dist, ps, n, kind, payload)
             eps = dkw_eps(n)
             if L > eps + CDF_SLACK:
-                if dist == "beta" and rg == "tiny-shapes" and where not in (0.0, 1.0):
-                    rg += ":interior"     # the open finding is about the mass at the end points only
+                if dist == "beta" and rg == "tiny-shapes" and not (
+                        (where == 0.0 and LAST_SIDE == "mass-at-or-below") or (where == 1.0 and LAST_SIDE == "mass-at-or-above")):
+                    # the open finding has one signature: TOO MUCH mass exactly at an end point (a gamma variate that underflowed to
+                    # 0 forces the ratio to 0 or 1); any other deviation in this regime is a different failure
+                    rg += ":interior"
                 fails.append(Failure(i, "%s:dkw:%s" % (dist, rg),
                                      "%s%r seed %d n %d: sup|F_n - F| >= %.6f at x = %r exceeds the DKW band %.6f (alpha = 1e-12)"
                                      % (dist_shown, ps, o["seed"], n, L, where, eps), "%.6f" % eps))
